@@ -3,11 +3,17 @@ from oracledefs import sst
 
 SST = Comp('sst', n_quick=450, n_thorough=12000, oracle=sst.sst_oracle, nontrivial=sst.sst_nontrivial, stats=sst.sst_stats)
 
+from oracledefs import sstsweep
+SSTSWEEP = Comp('sstsweep', n_quick=6, n_thorough=120, oracle=sstsweep.sstsweep_oracle, nontrivial=sstsweep.sstsweep_nontrivial,
+                stats=sstsweep.sstsweep_stats, differential=False, chunk_min=1, timeout=1200, shrink=False)
+
 reg(Prop('C11', 'Kevo.Props.C11',
          facts=['consts:block.*', 'consts:footer.*', 'consts:sstable.*', 'facts:sstable.*'],
-         components=[SST],
+         components=[SST, SSTSWEEP],
          fact_tags=['sstable', 'block', 'footer', 'bloom'],
-         rule='component sst: blocks (1..100 entries around the restart interval 15/16/17/31/32/33) and tables (1..380 entries, '
+         rule='component sstsweep (implementation only): EVERY single-bit alteration of table files with 3..60 entries (1..4 restart points) - open, '
+              'full iteration, lookup of every written key: only written entries, no panic, no endless iteration. '
+              'component sst: blocks (1..100 entries around the restart interval 15/16/17/31/32/33) and tables (1..380 entries, '
               'values to 9 KB so that several 64 KB blocks are cut, with and without bloom filters) built with the real '
               'block.Builder / sstable.Writer and with Kevo.Model.Block/Table; compared: serialised block bytes (crc), table '
               'file bytes (length + crc with the footer timestamp/checksum zeroed), the measured bloom parameters, every '
